@@ -67,7 +67,7 @@ def run(ctx, res):
             padt = payload.adt
             res.ob(variants.get(pk.variant) == padt and by(payload) == parsers.get(padt), "dispatch-arm", parsers[P],
                    f"variant {pk.variant} holds the result of its own payload type's parser", detail=f"payload parsed by {by(payload)}", pc=s.pc)
-            res.ob(same_view(s.pc, payload.fields["data"], inp), "dispatch-arm", parsers[P],
+            res.ob(same_view(s.pc, field_of(payload, SliceV, "data"), inp), "dispatch-arm", parsers[P],
                    f"{short(padt)}::parse is applied to the unchanged input", pc=s.pc)
             name = short(padt)
             if name in PACKET_TYPES:
@@ -132,7 +132,7 @@ def run(ctx, res):
                     elif short(padt) == "Unknown":
                         inner = r.fields.get("0") if isinstance(r, StructV) else None
                         good = isinstance(inner, StructV) and inner.variant in (PARSED, ERROR_OF) and by(inner) == tgt_parse and \
-                            same_view(s.pc, inner.fields.get("data") or inner.fields.get("view"), pv.fields["data"]) and \
+                            same_view(s.pc, inner.fields.get("data") or inner.fields.get("view"), field_of(pv, SliceV, "data")) and \
                             ((r.variant == "Ok") == (inner.variant == PARSED))
                         res.ob(bool(good), "conversion-shape", cd, f"{label}: an unknown packet is re-parsed by {tname}::parse on exactly its bytes", detail=repr(r)[:200], pc=s.pc)
                     else:
